@@ -66,6 +66,21 @@ func genGraph(p *params, emit func(string, bool)) {
 	r := p.rng
 	for i := 0; i < p.pick(150, 2500); i++ {
 		k := 2 + r.Intn(7)
+		// node labels: 1..k, or (one case in three) multi-digit statuses whose decimal forms are prefixes / concatenations
+		// of one another (1, 11, 12, 2, 23, 112, 123 ...), large and negative values
+		label := func(i int) int { return i }
+		labelled := r.Intn(3) == 0
+		if labelled {
+			fams := [][]int{{1, 11, 111, 1111}, {1, 2, 12, 21, 11, 22}, {1, 12, 123, 23, 3, 2}, {-1, 1, -11, 11, -111}, {10, 1, 100, 0, 1000000007, 7}}
+			pool := append([]int{}, fams[r.Intn(len(fams))]...)
+			r.Shuffle(len(pool), func(a, b int) { pool[a], pool[b] = pool[b], pool[a] })
+			label = func(i int) int {
+				if i >= 1 && i <= len(pool) {
+					return pool[i-1]
+				}
+				return i + 5000
+			}
+		}
 		ncalls := 1 + r.Intn(6)
 		var cs []bcall
 		stepUsed := map[int]bool{}
@@ -73,7 +88,7 @@ func genGraph(p *params, emit func(string, bool)) {
 		dests := map[int]int{}
 		srcs := map[int]bool{}
 		for j := 0; j < ncalls; j++ {
-			c := bcall{from: 1 + r.Intn(k)}
+			c := bcall{from: label(1 + r.Intn(k))}
 			switch r.Intn(3) {
 			case 0:
 				if stepUsed[c.from] {
@@ -89,7 +104,7 @@ func genGraph(p *params, emit func(string, bool)) {
 			}
 			nd := r.Intn(4)
 			for d := 0; d < nd; d++ {
-				t := 1 + r.Intn(k)
+				t := label(1 + r.Intn(k))
 				if r.Intn(12) == 0 {
 					t = c.from
 				}
@@ -123,8 +138,8 @@ func genGraph(p *params, emit func(string, bool)) {
 		emit(fmt.Sprintf("validate %d %d %s", 0, 0, callsString(cs)), false)
 		for a := -1; a <= k+1; a++ {
 			for b := -1; b <= k+1; b++ {
-				if r.Intn(3) == 0 {
-					emit(fmt.Sprintf("validate %d %d %s", a, b, callsString(cs)), true)
+				if r.Intn(3) == 0 || (labelled && r.Intn(2) == 0) {
+					emit(fmt.Sprintf("validate %d %d %s", label(a), label(b), callsString(cs)), true)
 				}
 			}
 		}
@@ -192,7 +207,7 @@ func runGraph(kind string, a []string) string {
 		}
 		g := w.VerifGraph()
 		var parts []string
-		for n := -1; n <= 10; n++ {
+		for _, n := range graphProbes(cs) {
 			var ts []string
 			for _, t := range g.Transitions(n) {
 				ts = append(ts, itoa(t))
@@ -214,6 +229,29 @@ func runGraph(kind string, a []string) string {
 		return b2s(workflow.VerifValidateTransition(st(atoi(a[0])), st(atoi(a[1])), g) == nil)
 	}
 	panic("kind")
+}
+
+// graphProbes: -1..10, then every node named in the calls (sources, then destinations, in call order) not yet listed
+func graphProbes(cs []bcall) []int {
+	var ps []int
+	seen := map[int]bool{}
+	for n := -1; n <= 10; n++ {
+		ps = append(ps, n)
+		seen[n] = true
+	}
+	add := func(n int) {
+		if !seen[n] {
+			seen[n] = true
+			ps = append(ps, n)
+		}
+	}
+	for _, c := range cs {
+		add(c.from)
+		for _, t := range c.to {
+			add(t)
+		}
+	}
+	return ps
 }
 
 func edgesOf(cs []bcall) [][2]int {
